@@ -241,7 +241,8 @@ def _validate_types(nodes: dict[str, HyperNode], nx_graph: nx.DiGraph) -> None:
     """
     for source_name, target_name, edge_data in nx_graph.edges(data=True):
         value_names = edge_data.get("value_names")
-        if not value_names:
+        if not value_names or edge_data.get("edge_type") == "ordering":
+            # ordering edges (emit / wait_for) carry a signal, not a typed value
             continue
 
         source_node = nodes[source_name]
